@@ -80,6 +80,8 @@ def model_value(model, v, depth=0):
         return [model_value(model, x) for x in v]
     if isinstance(v, dict):
         return {k: model_value(model, x) for k, x in v.items()}
+    if isinstance(v, (set, frozenset)):
+        return sorted(model_value(model, x) for x in v)
     if isinstance(v, SymSeq):
         n = model.eval(v.n, model_completion=True).as_long()
         n = max(0, min(n, 64))
@@ -530,7 +532,8 @@ class Verifier:
                 ob.info['params'] = params_entry
                 ob.info['case'] = ci
                 ob.info['witness'] = dict(eng.witness)
-                ob.info['spec_env'] = {k: v for k, v in eng.spec_env.items() if isinstance(v, (Sym, int, str, bool))}
+                ob.info['spec_env'] = {k: snapshot_value(v) for k, v in eng.spec_env.items()
+                                        if isinstance(v, (Sym, int, str, bool, dict, list, tuple, set))}
                 if ob.name not in groups:
                     groups[ob.name] = []
                     order.append(ob.name)
